@@ -138,6 +138,10 @@ def run(ctx, pid=PID, families=(("commit", 120, 600), ("retry", 60, 300)), mutan
     win = core.window_scenarios(ctx, 24 if thorough else 8, run_no)
     run_no += len(win)
     core.execute_and_validate(ctx, pid, win, par=1)
+    if pid in ("C01", "C09"):
+        bud = core.budget_scenarios(ctx, run_no)
+        run_no += len(bud)
+        core.execute_and_validate(ctx, pid, bud, par=4)
     # 3. real code + trace validation, in chunks
     chunk = 150
     for i in range(0, len(scen), chunk):
